@@ -1,5 +1,5 @@
 (* Dispatch: the single entry point of the extracted model. One request line in, one result line out. *)
-From Klog Require Import Base.Prelude Model.Show Model.SuiteValues Model.SuiteParse Model.SuiteParallel Model.SuiteEval
+From Klog Require Import Base.Prelude Model.Show Model.SuiteValues Model.SuiteParse Model.SuiteParallel Model.SuiteEval Model.SuiteCommands
   Model.SuitePeriod Model.SuiteTags Model.SuiteStyler Model.SuiteBookmarks.
 
 Definition first_some (l : list (option bytes)) : bytes :=
@@ -15,6 +15,7 @@ Definition dispatch (line : bytes) : bytes :=
                 suite_parse cmd args;
                 suite_parallel cmd args;
                 suite_eval cmd args;
+                suite_commands cmd args;
                 suite_period cmd args;
                 suite_tags cmd args;
                 suite_styler cmd args;
